@@ -227,9 +227,19 @@ def check(ctx):
                 'the comment text is stored through TextBlock.__init__ (split into lines)' if ok_sup else
                 'the comment text does not reach TextBlock.__init__ unchanged')
 
-    # ---- C19.every-line (b): the ALL branch of to_list ----------------------------------------------------------------------
+    # ---- C19.every-line (b) + (c): bullet mode ALL puts the glyph in front of every line ----------------------------------------
+    # decided by interpreting the indenter (E6, the scenarios of C18) when that is possible, else on the shape of the ALL view
     to_list = ind.methods.get('to_list')
-    if to_list is None:
+    glyph_sem = _all_lines_start_with_glyph(ctx, ind)
+    if glyph_sem is not None:
+        n_runs, bad_ = glyph_sem
+        run.add('C19.every-line', tg.name, 'Indentizer.to_list', f'mode ALL: {n_runs} configurations x line sequences', not bad_,
+                f'in bullet mode ALL every output line starts with the glyph and there are as many as input lines (to_list interpreted on '
+                f'{n_runs} configuration / line-sequence pairs)' if not bad_ else 'mode ALL: ' + '; '.join(bad_[:3]))
+        run.add('C19.every-line', tg.name, 'Indentizer.__post_init__', 'bullet prefix starts with the glyph', not bad_,
+                'the bullet prefix begins with the configured glyph for space and tab indentation' if not bad_ else
+                'see the mode ALL finding')
+    elif to_list is None:
         run.error('C19.every-line', tg.name, 'Indentizer.to_list', 'to_list', 'Indentizer.to_list vanished')
     else:
         from .shared import to_list_views
@@ -239,7 +249,9 @@ def check(ctx):
     # ---- C19.every-line (c): the bullet prefix starts with the glyph --------------------------------------------------------------
     post = ind.methods.get('__post_init__')
     n_pref = 0
-    if post is not None:
+    if glyph_sem is not None:
+        n_pref = 2
+    elif post is not None:
         # judged on the views of __post_init__ with a bullet list, for space and for tab indentation (specialisation: which
         # helpers build the prefix does not matter)
         from .shared import post_init_views
@@ -604,6 +616,54 @@ def _every_line_map(ctx, fn: FuncInfo, e: ast.AST, src: str) -> Tuple[bool, str]
                 return True, 'the first line and every remaining line are rendered as bullet prefix + line'
             return False, why1 if not ok1 else why2
     return False, f'`{ast.unparse(e)[:50]}` is not a per-line map of the whole list'
+
+
+def _all_lines_start_with_glyph(ctx, ind: ClassInfo):
+    from ..scenario import Interp, EnumV, Raised, Undecided
+    import itertools
+    prog = ctx.prog
+    indentor = prog.cls('text_gen', 'Indentor')
+    blm = prog.cls('text_gen', 'BulletListMode')
+    bl = prog.cls('text_gen', 'BulletList')
+    to_list = prog.lookup_method(ind, 'to_list')
+    if None in (indentor, blm, bl, to_list):
+        return None
+    alphabet = ['', '  ', 'x', ' y ', '// z']
+    seqs = [list(s_) for n in (0, 1, 2) for s_ in itertools.product(alphabet, repeat=n)] + [['x', '', 'x'], ['', '', '']]
+    from .c18 import _long_sequences
+    seqs += _long_sequences(ind)
+    bad: List[str] = []
+    n_runs = 0
+    try:
+        for ind_kind, n in (('SPACES', 0), ('SPACES', 4), ('TAB', 4)):
+            for glyph in ('//', '-', '>>>>>'):
+                it = Interp(prog)
+                it.MAX_STEPS = 3000000
+                try:
+                    blo = it.construct(bl, [], {'mode': EnumV(blm, 'ALL'), 'glyph': glyph})
+                    izr = it.construct(ind, [], {'indentor': EnumV(indentor, ind_kind), 'spaces_count': n, 'bullet_list': blo})
+                except Raised as exc:
+                    bad.append(f'{ind_kind}/{n}/{glyph!r}: the configuration is refused ({exc.name})')
+                    continue
+                for lines in seqs:
+                    n_runs += 1
+                    try:
+                        got = it.call_function(to_list, [list(lines)], {}, self_val=izr)
+                    except Raised as exc:
+                        bad.append(f'{ind_kind.lower()} {n}, glyph {glyph!r}, lines {lines!r}: raises {exc.name.split(".")[-1]}')
+                        continue
+                    got = list(got) if isinstance(got, (list, tuple)) else None
+                    if got is None:
+                        raise Undecided('to_list does not yield a list')
+                    if len(got) != len(lines):
+                        bad.append(f'{ind_kind.lower()} {n}, glyph {glyph!r}, lines {lines!r}: {len(got)} lines come out')
+                    elif not all(isinstance(g_, str) and g_.startswith(glyph) and lines[i].strip() in g_ for i, g_ in enumerate(got)):
+                        k = next(i for i, g_ in enumerate(got) if not (isinstance(g_, str) and g_.startswith(glyph) and lines[i].strip() in g_))
+                        bad.append(f'{ind_kind.lower()} {n}, glyph {glyph!r}, lines {lines!r}: line {k} is {got[k]!r} - it does not start '
+                                   f'with the glyph (or has lost its text)')
+    except Undecided:
+        return None
+    return n_runs, bad
 
 
 def _starts_with_glyph(ctx, fn: FuncInfo, v: ast.AST) -> Tuple[Optional[bool], str]:
